@@ -33,6 +33,10 @@ pub trait Service<Request> {
     type Error;
     type Future;
     spec fn log(&self) -> Seq<Request>;
+    spec fn ready_now(&self) -> Poll<Result<(), Self::Error>>;
+    // A-tower-03: poll_ready reports the readiness of the service (a ghost property of its state) and hands it no request
+    fn poll_ready(&mut self, cx: &mut Context) -> (r: Poll<Result<(), Self::Error>>)
+        ensures r == old(self).ready_now(), final(self).log() == old(self).log();
     // A-tower-01: Service::call hands the request to the service (ghost log) and returns its future
     fn call(&mut self, req: Request) -> (f: Self::Future)
         ensures final(self).log() == old(self).log().push(req);
@@ -174,6 +178,11 @@ pub trait CloneSame: Sized { fn clone(&self) -> (r: Self) ensures r == *self; }
          sig_edits=[lambda t: t.sub_code('R9', r'Self::Service', 'InterceptedService<S, I>'),
                     lambda t: t.sub_code('R12', r'fn layer\(', 'fn layer<S>(')],
          ensures=[Clause('W2_the_layer_installs_its_interceptor_around_the_service', 'r.inner == service && r.interceptor == self.interceptor')])
+    u.fn(IC, 'poll_ready', within='impl<S, I, ReqBody, ResBody> Service<http::Request<ReqBody>> for InterceptedService<S, I>',
+         header='impl<S, I> InterceptedService<S, I> {', close=True, display='InterceptedService::poll_ready',
+         sig_edits=[lambda t: t.sub_code('R9', r'Self::Error', '<S as Service<http::Request<ReqBody>>>::Error'), lambda t: t.sub_code('R12', r'fn poll_ready\(', 'fn poll_ready<ReqBody>('),
+                    lambda t: t.edit('R12', len(t.t.rstrip()), len(t.t.rstrip()), ' where S: Service<http::Request<ReqBody>>')],
+         ensures=[Clause('V0_ready_exactly_when_the_wrapped_service_is_and_the_interceptor_is_not_consulted', 'r == old(self).inner.ready_now() && final(self).inner.log() == old(self).inner.log() && final(self).interceptor == old(self).interceptor')])
     u.fn(IC, 'call', within='impl<S, I, ReqBody, ResBody> Service<http::Request<ReqBody>> for InterceptedService<S, I>',
          header='''impl<S, I> InterceptedService<S, I>
 where
